@@ -2,7 +2,7 @@
    Secp256k1PrivateKey.IsValidBytes / FromBytes is an oracle [valid_key] (32 bytes, 0 < k < n);
    for a valid key, [priv_key.Raw().ToBytes()] is the key bytes themselves.
    The public-key mode is a bool: true = COMPRESSED. *)
-From Coq Require Import NArith List Bool.
+From Coq Require Import NArith Arith List Bool.
 From BU Require Import Base.Exn Base.Radix Base.Bytes Model.Base58.
 Import ListNotations.
 Open Scope N_scope.
@@ -32,6 +32,7 @@ Section Wif.
   (* WifDecoder.Decode(wif_str, net_ver) *)
   Definition wif_decode (wif_str net_ver : list N) : res (list N * bool) :=
     priv_key_bytes <- check_decode alph radix cklen sha256 wif_str ;;
+    if (length priv_key_bytes =? 0)%nat then Err ValueError else    (* "Invalid decoded key (empty)" *)
     first <- of_option (hd_error priv_key_bytes) IndexError ;;      (* priv_key_bytes[0] *)
     nv <- ord1 net_ver ;;
     if negb (first =? nv) then Err ValueError else
